@@ -25,6 +25,8 @@ structure PSt where
   tagOf : List (Nat × Nat) := []
   /-- ports that already got a reply (oracle: at most one) -/
   replied : List Nat := []
+  /-- tags for which a `reply` op was issued -/
+  resolved : List Nat := []
 
 /-! ### E-LTS end to end (two real nodes)
 
@@ -361,7 +363,14 @@ def oraclePure (st : PSt) (op : List String) (impl : String) : PSt × List Strin
       | _ => if got.isEmpty then [] else ["reply-to-caller"]
     let bad3 := if got.all fun (q, _) => !st.replied.contains q then [] else ["reply-once"]
     let bad4 := if got.all fun (q, _) => !st.closed.contains q then [] else ["reply-abandoned"]
-    ({ st1 with replied := st1.replied ++ got.map (·.1) }, bad1 ++ bad2 ++ bad3 ++ bad4)
+    -- `cleanup-open`: a request whose caller still waits and whose reply has not come stays pending
+    let resolved := match op with
+      | ["reply", t, _] => (t.toNat?.map fun t => t :: st.resolved).getD st.resolved
+      | _ => st.resolved
+    let pendingImpl := ((field impl "pending").bind natList?).getD []
+    let mustStay := st1.tagOf.filter fun (t, q) => !st.closed.contains q && !resolved.contains t
+    let bad5 := if mustStay.all fun (t, _) => pendingImpl.contains t then [] else ["cleanup-open"]
+    ({ st1 with replied := st1.replied ++ got.map (·.1), resolved := resolved }, bad1 ++ bad2 ++ bad3 ++ bad4 ++ bad5)
   | _, _ => (st, ["unparsable"])
 
 def stepPure (st : PSt) (w : List String) (impl : String) : Option (PSt × StepOut) :=
